@@ -197,7 +197,7 @@ def component_lookups(F):
 # ---- emitters (by what they write) --------------------------------------------------------------------------------------------
 
 SERVICE_WRITER = "<model::soap::service::SoapService as reader::WriteXml<W>>::write_xml"
-BINDING_WRITER = "model::soap::binding::writer::<impl reader::WriteXml<W> for model::soap::binding::SoapBinding>::write_xml"
+BINDING_WRITER = "<model::soap::binding::SoapBinding as reader::WriteXml<W>>::write_xml"   # (impl paths are normalised in the facts)
 
 
 def _stream_has(X, fn, regex):
